@@ -23,11 +23,9 @@ header is the object it is inside the whole program; numbers compared by value),
 with its memo table disabled returns the same circuit), `C14_refs_valid` (independent re-check of every accepted program:
 literal indices and slices in range, sources are registers, arity and kinds fit, definitions known, names distinct, one
 register) — these three on generated program TEXTS; the `_handmade_sx` variants run the same checks on hand-made
-S-expressions that the model handles.  Known residual failure of `C14_refs_valid_handmade_sx` (one fixed input): a
-`usepulses` child AFTER a gate statement replaces, in `native_gates`, the definition the earlier statement stays bound
-to (`usepulses a; register r[2]; X r[0]; usepulses b`; Props/C14.lean `C14_stale_definition_handmade`); the parser cannot
-produce such input.  Since the memo table is reset on every pulse load and types its numbers, both C07 oracles hold on
-hand-made input too (a deviation in an int/float literal only would be counted in `distribution`).
+S-expressions that the model handles (no known failure: pulse definitions cannot be loaded after the first gate or
+macro, the memo table is reset on every pulse load and types its numbers); `C16_error_classes`: building a program text
+fails, if it fails, with JaqalError or ImportError (an `Undumpable` result counts as a failure too).
 
 The model answers `Unmodelled:<why>` on inputs that would make the Python build an object the IR cannot hold; on those
 the script checks that the Python raised or produced something `dump.circuit` cannot dump, and tabulates what it did.
@@ -805,7 +803,8 @@ def _new_result():
                        "C07_memo_transparent": {"cases": 0, "failures": []},
                        "C07_memo_transparent_handmade_sx": {"cases": 0, "failures": []},
                        "C14_refs_valid_handmade_sx": {"cases": 0, "failures": []},
-                       "C14_refs_valid": {"cases": 0, "failures": []}},
+                       "C14_refs_valid": {"cases": 0, "failures": []},
+                       "C16_error_classes": {"cases": 0, "failures": []}},
             "distribution": {}, "samples": [], "nontrivial": 0}
 
 
@@ -906,6 +905,12 @@ def run(seed: int, n: int, driver: str = DEFAULT_DRIVER, thorough: bool = False)
             res["corr"]["parse_build"]["cases"] += 1
             if not agree(mp, impl_p):
                 _record(res["corr"]["parse_build"]["disagreements"], {"case": c, "model": mp, "impl": impl_p})
+            # C16 on the real code: a program text makes the builder fail with JaqalError / ImportError only
+            res["oracle"]["C16_error_classes"]["cases"] += 1
+            for which, out in (("build", impl), ("parse_jaqal_string", impl_p)):
+                if "err" in out and out["err"] not in ("JaqalError", "ImportError"):
+                    _record(res["oracle"]["C16_error_classes"]["failures"],
+                            {"case": c, "detail": f"{which} raises {out['err']}"})
             if "ok" in impl_p:
                 bad = oracle_c14(circ_p, c["natives"] or c["autoload"])
                 res["oracle"]["C14_refs_valid"]["cases"] += 1
